@@ -1,6 +1,22 @@
 from django.db import models
 
 
+class Label(models.Model):
+    name = models.CharField(max_length=64)
+
+    class Meta:
+        app_label = "simhost"
+        db_table = "label"
+
+
+class Kind(models.Model):
+    name = models.CharField(max_length=64)
+
+    class Meta:
+        app_label = "simhost"
+        db_table = "kind"
+
+
 class Author(models.Model):
     name = models.CharField(max_length=64)
 
@@ -22,6 +38,11 @@ class Post(models.Model):
     author = models.ForeignKey(Author, null=True, on_delete=models.CASCADE,
                                related_name="posts")
 
+    tag = models.ForeignKey(Label, null=True, on_delete=models.CASCADE, related_name="tagged_posts")
+    # a many-to-many relation (Django side only): collections reached through it have a
+    # multi-valued link condition
+    editors = models.ManyToManyField(Author, related_name="edited", db_table="post_editors")
+
     objects = models.Manager()
     high = HighRatedManager()
 
@@ -33,6 +54,8 @@ class Post(models.Model):
 class Comment(models.Model):
     body = models.CharField(max_length=64)
     post = models.ForeignKey(Post, on_delete=models.CASCADE, related_name="comments")
+    tag = models.ForeignKey(Kind, null=True, on_delete=models.CASCADE,
+                            related_name="tagged_comments")
     writer = models.ForeignKey(Author, null=True, on_delete=models.CASCADE,
                                related_name="comments")
     co_writer = models.ForeignKey(Author, null=True, on_delete=models.CASCADE,
